@@ -2,6 +2,7 @@ package main
 
 import (
 	"fmt"
+	"math"
 	"strings"
 
 	d "github.com/ostafen/clover/v2/document"
@@ -51,6 +52,9 @@ func streamC16(c *Ctx) {
 		ok := c16ThroughDB(c, im, batchDocs, batchCrits, batchLines)
 		batchDocs, batchCrits, batchLines = nil, nil, nil
 		return ok
+	}
+	if !c16FractionalKinds(c, im) {
+		return
 	}
 	modelOff := false
 	for i := 0; i < n; i++ {
@@ -432,4 +436,75 @@ func refTwin(j interface{}) (interface{}, bool) {
 		return out, changed
 	}
 	return j, false
+}
+
+// c16FractionalKinds: literal-kind invariance for numbers with a fraction: a float32 literal denotes the number it holds
+// (float64(f32), e.g. 0.10000000149011612 for float32(0.1)), so every comparison gives the same answer for the float32
+// literal and for that float64 - on documents holding exactly that number, the decimal it was written from (0.1), and
+// the float64 neighbours of both; through Satisfy and through the database (which normalises the criteria first).
+func c16FractionalKinds(c *Ctx, im *Impl) bool {
+	db := im.db
+	coll := "fk"
+	if ok, _ := db.HasCollection(coll); ok {
+		db.DropCollection(coll)
+	}
+	db.CreateCollection(coll)
+	db.CreateIndex(coll, "v")
+	decs := []float64{0.1, 0.3, 0.001, 1.1, -0.7, 2.5, 16777217, 1e-40}
+	docs := []*d.Document{}
+	n := 0
+	for _, x := range decs {
+		w := float64(float32(x))
+		for _, v := range []float64{x, w, math.Nextafter(w, 2*w), math.Nextafter(w, -2*w), math.Nextafter(x, 2*x)} {
+			n++
+			docs = append(docs, d.NewDocumentOf(map[string]interface{}{"_id": fixedId(695000 + n), "v": v, "arr": []interface{}{v, "s"}}))
+		}
+	}
+	if err := db.Insert(coll, docs...); err != nil {
+		panic(err)
+	}
+	for _, x := range decs {
+		f32 := float32(x)
+		f64 := float64(f32)
+		mk := func(op string, lit interface{}) query.Criteria {
+			switch op {
+			case "eq":
+				return query.Field("v").Eq(lit)
+			case "neq":
+				return query.Field("v").Neq(lit)
+			case "gt":
+				return query.Field("v").Gt(lit)
+			case "ge":
+				return query.Field("v").GtEq(lit)
+			case "lt":
+				return query.Field("v").Lt(lit)
+			case "le":
+				return query.Field("v").LtEq(lit)
+			case "in":
+				return query.Field("v").In("zz", lit)
+			}
+			return query.Field("arr").Contains(lit)
+		}
+		for _, op := range []string{"eq", "neq", "gt", "ge", "lt", "le", "in", "contains"} {
+			c.Evals++
+			for _, doc := range docs {
+				a, pa := safeSatisfy(mk(op, f32), doc)
+				b, pb := safeSatisfy(mk(op, f64), doc)
+				if pa != "" || pb != "" || a != b {
+					c.Violation(&Replay{Stream: "sat", Case: []interface{}{J{"k": "fractional-kind", "op": op, "float32": fmt.Sprint(f32), "as_float64": fmt.Sprint(f64), "field": fmt.Sprint(doc.Get("v"))}},
+						Expected: []string{fmt.Sprint(b)}, Actual: []string{fmt.Sprint(a), pa + pb}, Note: "a float32 literal and the float64 holding the same number give different answers (Satisfy)"})
+					return false
+				}
+			}
+			na, ea := db.Count(query.NewQuery(coll).Where(mk(op, f32)))
+			nb, eb := db.Count(query.NewQuery(coll).Where(mk(op, f64)))
+			if ea != nil || eb != nil || na != nb {
+				c.Violation(&Replay{Stream: "sat", Case: []interface{}{J{"k": "fractional-kind", "op": op, "float32": fmt.Sprint(f32), "as_float64": fmt.Sprint(f64)}},
+					Expected: []string{fmt.Sprint(nb)}, Actual: []string{fmt.Sprint(na), fmt.Sprint(ea, eb)}, Note: "a float32 literal and the float64 holding the same number select different documents (Count through the database, indexed field)"})
+				return false
+			}
+			c.Count("fractional-kind-cell")
+		}
+	}
+	return true
 }
